@@ -404,7 +404,8 @@ def build_case(h, run):
         h["max_idle"], h["history"], h["shards"], thr_of(h), adds)
     ops = coq_ops(h)[:nsteps]
     term = "run_case [%s] [%s] %s [%s]" % ("; ".join(table), "; ".join(hints), cfg, "; ".join(ops))
-    return term, {"names": names, "problems": problems}
+    term_assign = "run_case_assign [%s] %s [%s]" % ("; ".join(table), cfg, "; ".join(ops))
+    return term, {"names": names, "problems": problems, "assign_term": term_assign}
 
 
 # ------------------------------------------------------------------------------------------------
@@ -1413,3 +1414,49 @@ def ties_in_run(h, run):
 
 def tie_free(h, run):
     return run is not None and ties_in_run(h, run) == 0
+
+
+
+# ------------------------------------------------------------------------------------------------
+# executing the link to the verified voting model (Proofs/TrackerAssign.v): the tracker model run with
+# assign_solver (padded matrix + brute-force optimum standing in for kuhn_munkres + decode) must reproduce the
+# implementation on histories whose calls are small (the brute force is exponential) and have a unique optimum
+
+PREAMBLE_ASSIGN = PREAMBLE.replace("From Similari Require Import Model.Constraints Model.Tracker.",
+                                   "From Similari Require Import Model.Constraints Model.Tracker Proofs.TrackerAssign.")
+
+
+def small_history(h, run, max_dets=5, max_tracks=6):
+    for i, op in enumerate(h["ops"]):
+        if i >= len(run["steps"]):
+            break
+        groups = [op["dets"]] if op["kind"] == "predict" else ([ds for _, ds in op["scenes"]] if op["kind"] == "batch" else [])
+        if any(len(ds) > max_dets for ds in groups):
+            return False
+        if len(run["steps"][i]["main"]) > max_tracks:
+            return False
+    return True
+
+
+def assign_link(data, max_hist=40):
+    hists, runs = data["hists"], data["runs"]
+    if not os.path.exists(os.path.join(vlib.COQ, "theories", "Proofs", "TrackerAssign.vo")):
+        return {"histories": 0, "note": "Proofs/TrackerAssign.vo not built"}, []
+    sel = [k for k, h in enumerate(hists) if runs[k] is not None and small_history(h, runs[k]) and tie_free(h, runs[k])][:max_hist]
+    terms, infos = [], []
+    for k in sel:
+        t, info = build_case(hists[k], runs[k])
+        terms.append(info["assign_term"])
+        infos.append(info)
+    if not terms:
+        return {"histories": 0}, []
+    t0 = time.time()
+    vals = [vlib.parse_coq_value(v) for v in vlib.coq_eval(PREAMBLE_ASSIGN, terms, shard_size=max(1, (len(terms) + 15) // 16), tag="trkassign", timeout=900)]
+    bad = []
+    ncalls = 0
+    for k, v, info in zip(sel, vals, infos):
+        diffs, ties, n = compare(hists[k], runs[k], v, info["names"])
+        ncalls += n
+        if diffs:
+            bad.append((k, diffs[0]))
+    return {"histories": len(sel), "operations_compared": ncalls, "disagreements": len(bad), "wall_s": round(time.time() - t0, 1)}, bad
